@@ -37,7 +37,7 @@ def run(prop, tier, seed):
     V.cargo_build()
     mode = MODE[prop]
     sizes = {"C08": ((1200, 12), (12000, 14)), "C09": ((150, 6), (1500, 8)), "C10": ((220, 6), (2500, 8))}[prop][0 if tier == "quick" else 1]
-    profiles = [("mixed", 0.5), ("idx", 0.5)] if prop == "C10" else [("mixed", 1.0)] if prop == "C09" else [("mixed", 0.6), ("agg", 0.1), ("distinct", 0.1), ("order", 0.1), ("opt", 0.1)]
+    profiles = [("mixed", 0.5), ("idx", 0.5)] if prop == "C10" else [("mixed", 1.0)] if prop == "C09" else [("mixed", 0.56), ("agg", 0.1), ("distinct", 0.1), ("order", 0.1), ("opt", 0.1), ("varlen", 0.04)]
     total = answered = nontriv = 0
     samples = []
     langs = {}
